@@ -281,6 +281,20 @@ Qed.
 Theorem C14_nf_program : forall ss ss', SimGen.noempty ss = SimGen.noempty ss' -> snf_program ss = snf_program ss'.
 Proof. exact snf_program_of_noempty. Qed.
 
+(* ... and for whole files of the fragment (the module loop with its error recovery): the same top-level
+   statements up to EmptyStatements, or both rejected *)
+Theorem C14_nl_in_brackets_program : forall ts ts' f,
+  insignificant_diff ts ts' -> frag ts -> frag ts' ->
+  (match ts with TComment :: _ => False | _ => True end) ->
+  (match ts' with TComment :: _ => False | _ => True end) ->
+  parse_fuel ts <= f -> parse_fuel ts' <= f ->
+  match parse_program gen_ptab f ts, parse_program gen_ptab f ts' with
+  | Ok (ss, _), Ok (ss', _) => SimGen.noempty ss = SimGen.noempty ss'
+  | Err _ _, Err _ _ => True
+  | _, _ => False
+  end.
+Proof. exact (nl_in_brackets_program gen_ptab C14_bracket_sane C14_total_ok). Qed.
+
 (* ---- stated, not proved ---- *)
 Definition C14_nl_in_brackets_statement_level : Prop := nl_in_brackets_statement_level gen_ptab.   (* refuted above *)
 Definition C14_ws_insert_whole_input : Prop := ws_insert_statement gen_table.
@@ -450,6 +464,7 @@ Print Assumptions C14_loop_do_unconditional.
 Print Assumptions C14_loop_do_converse.
 Print Assumptions C14_nl_in_brackets_statement_level_same_fuel_refuted.
 Print Assumptions C14_nl_in_brackets_statement_settled.
+Print Assumptions C14_nl_in_brackets_program.
 Print Assumptions C14_comments_anywhere.
 Print Assumptions C14_comments_statement.
 Print Assumptions C14_nf_paren.
